@@ -166,6 +166,14 @@ theorem getLast?_intercalate_singleton {d : Char} {ls : List Text} (hne : ls ≠
       rw [getLast?_append_ne hb, ih (by simp) (fun l hl => h l (by simp [hl]))]
       simp
 
+theorem intercalate_ne_nil' {d : Char} {a : Text} {t : List Text} (ha : a ≠ []) : [d].intercalate (a :: t) ≠ [] := by
+  intro hb
+  have := head?_intercalate_singleton (d := d) (a := a) (t := t) ha
+  rw [hb] at this
+  cases a with
+  | nil => exact ha rfl
+  | cons c a => simp at this
+
 theorem lineTokens_gen (d : Char) (cm : Option Char) (hd : DelimOK d cm) (toks : List Text) (hne : toks ≠ [])
     (h : ∀ t ∈ toks, TokOK d cm t) :
     lineTokens cm (some d) ([d].intercalate toks ++ ['\n']) = some toks := by
@@ -278,22 +286,102 @@ theorem nl_not_mem_gen_line {d : Char} {cm : Option Char} (hd : DelimOK d cm) {t
   · exact hd.notNl hx.symm
   · exact (h l hl).nonl hx
 
-/-- reading back a file of generated lines yields, line by line, exactly the token lists that were joined -/
-theorem tokens_of_generated_file (d : Char) (cm : Option Char) (hd : DelimOK d cm) (tokss : List (List Text))
-    (hne : ∀ ts ∈ tokss, ts ≠ []) (h : ∀ ts ∈ tokss, ∀ t ∈ ts, TokOK d cm t) :
-    (readLines (fileText (tokss.map (fun ts => [d].intercalate ts)))).filterMap (lineTokens cm (some d)) = tokss := by
+/-- reading back a file of joined lines yields, line by line, the token lists that were joined — given that
+    the line loop (with reader delimiter `rd`) recovers each single line -/
+theorem tokens_of_file (d : Char) (cm rd : Option Char) (tokss : List (List Text))
+    (hnl : ∀ ts ∈ tokss, '\n' ∉ [d].intercalate ts)
+    (hline : ∀ ts ∈ tokss, lineTokens cm rd ([d].intercalate ts ++ ['\n']) = some ts) :
+    (readLines (fileText (tokss.map (fun ts => [d].intercalate ts)))).filterMap (lineTokens cm rd) = tokss := by
   rw [readLines_fileText]
   · induction tokss with
     | nil => rfl
     | cons ts rest ih =>
       simp only [List.map_cons, List.filterMap_cons]
-      rw [lineTokens_gen d cm hd ts (hne ts (by simp)) (h ts (by simp))]
+      rw [hline ts (by simp)]
       simp only []
-      rw [ih (fun x hx => hne x (by simp [hx])) (fun x hx => h x (by simp [hx]))]
+      rw [ih (fun x hx => hnl x (by simp [hx])) (fun x hx => hline x (by simp [hx]))]
   · intro l hl
     simp only [List.mem_map] at hl
     obtain ⟨ts, hts, rfl⟩ := hl
-    exact nl_not_mem_gen_line hd (h ts hts)
+    exact hnl ts hts
+
+/-- … for the reader delimiter equal to the writer's -/
+theorem tokens_of_generated_file (d : Char) (cm : Option Char) (hd : DelimOK d cm) (tokss : List (List Text))
+    (hne : ∀ ts ∈ tokss, ts ≠ []) (h : ∀ ts ∈ tokss, ∀ t ∈ ts, TokOK d cm t) :
+    (readLines (fileText (tokss.map (fun ts => [d].intercalate ts)))).filterMap (lineTokens cm (some d)) = tokss :=
+  tokens_of_file d cm (some d) tokss (fun ts hts => nl_not_mem_gen_line hd (h ts hts))
+    (fun ts hts => lineTokens_gen d cm hd ts (hne ts hts) (h ts hts))
+
+/-! ### `delimiter=None`: the file was written with a whitespace delimiter and is split on whitespace runs -/
+
+/-- a token that survives whitespace splitting: non-empty, no whitespace (hence no newline), no comment token -/
+structure TokWs (cm : Option Char) (t : Text) : Prop where
+  ne : t ≠ []
+  nospace : ∀ c ∈ t, pySpace c = false
+  nocomment : ∀ c, cm = some c → c ∉ t
+
+theorem splitOnP_intercalate {α} (p : α → Bool) (d : α) (hd : p d = true) (ls : List (List α))
+    (h : ∀ l ∈ ls, ∀ x ∈ l, p x = false) (hls : ls ≠ []) : ([d].intercalate ls).splitOnP p = ls := by
+  induction ls with
+  | nil => simp at hls
+  | cons hd' tl ih =>
+    match tl with
+    | [] => simpa using List.splitOnP_eq_singleton (h hd' (by simp))
+    | t :: tl =>
+      simp only [List.intercalate_cons_cons, List.append_assoc, List.cons_append, List.nil_append]
+      rw [List.splitOnP_append_cons_of_forall_mem (h hd' (by simp)) d hd, ih (fun l hl => h l (by simp [hl])) (by simp)]
+
+theorem lineTokens_gen_ws (d : Char) (cm : Option Char) (hsp : pySpace d = true)
+    (hcd : cm ≠ some d) (hcnl : cm ≠ some '\n') (toks : List Text) (hne : toks ≠ []) (h : ∀ t ∈ toks, TokWs cm t) :
+    lineTokens cm none ([d].intercalate toks ++ ['\n']) = some toks := by
+  have hcut : cutComment cm ([d].intercalate toks ++ ['\n']) = [d].intercalate toks ++ ['\n'] := by
+    cases cm with
+    | none => rfl
+    | some c =>
+      simp only [cutComment]
+      apply takeWhile_eq_self
+      intro x hx
+      simp only [List.mem_append, List.mem_singleton] at hx
+      simp only [bne_iff_ne, ne_eq]
+      intro hxc; subst hxc
+      rcases hx with hx | hx
+      · rcases mem_intercalate_singleton hx with hx | ⟨l, hl, hx⟩
+        · exact hcd (by rw [hx])
+        · exact (h l hl).nocomment x rfl hx
+      · exact hcnl (by rw [hx])
+  unfold lineTokens
+  simp only [hcut]
+  have hnil : ([d].intercalate toks ++ ['\n']).isEmpty = false := by simp
+  simp only [hnil, Bool.and_false, Bool.false_eq_true, if_false, splitLine]
+  obtain ⟨a, t, rfl⟩ := List.exists_cons_of_ne_nil hne
+  rw [strip_line _ (intercalate_ne_nil' (h a (by simp)).ne)]
+  · rw [splitOnP_intercalate pySpace d hsp _ (fun l hl => (h l hl).nospace) (by simp)]
+    congr 1
+    rw [List.filter_eq_self]
+    intro l hl
+    have := (h l hl).ne
+    cases l with
+    | nil => exact absurd rfl this
+    | cons c l => rfl
+  · intro c hc
+    rw [head?_intercalate_singleton (h a (by simp)).ne] at hc
+    exact (h a (by simp)).nospace c (List.mem_of_mem_head? hc)
+  · intro c hc
+    rw [getLast?_intercalate_singleton (by simp) (fun l hl => (h l hl).ne)] at hc
+    exact (h _ (List.getLast_mem _)).nospace c (List.mem_of_getLast? hc)
+
+theorem tokens_of_generated_file_ws (d : Char) (cm : Option Char) (hsp : pySpace d = true) (hdnl : d ≠ '\n')
+    (hcd : cm ≠ some d) (hcnl : cm ≠ some '\n') (tokss : List (List Text))
+    (hne : ∀ ts ∈ tokss, ts ≠ []) (h : ∀ ts ∈ tokss, ∀ t ∈ ts, TokWs cm t) :
+    (readLines (fileText (tokss.map (fun ts => [d].intercalate ts)))).filterMap (lineTokens cm none) = tokss := by
+  apply tokens_of_file d cm none tokss
+  · intro ts hts hx
+    rcases mem_intercalate_singleton hx with hx | ⟨l, hl, hx⟩
+    · exact hdnl hx.symm
+    · have := (h ts hts l hl).nospace _ hx
+      rw [pySpace_newline] at this; cases this
+  · intro ts hts
+    exact lineTokens_gen_ws d cm hsp hcd hcnl ts (hne ts hts) (h ts hts)
 
 theorem mapRes_cast_render (ty : Ty) (l : List Atom) (h : ∀ a ∈ l, cast ty (renderAtom a) = .ok a) :
     mapRes (cast ty) (l.map renderAtom) = .ok l := by
@@ -678,5 +766,40 @@ theorem nodup_of_length_foldl_ins {α : Type} [DecidableEq α] (l acc : List α)
 theorem nodup_of_length_dedup {α : Type} [DecidableEq α] {l : List α} (h : (dedup l).length = l.length) : l.Nodup := by
   have := nodup_of_length_foldl_ins l [] List.nodup_nil (by simpa [dedup] using h)
   simpa using this
+
+/-- an int label contains no whitespace at all -/
+theorem tokWs_int (cm : Option Char) (i : Int) (hc : ∀ c, cm = some c → c.isDigit = false ∧ c ≠ '-') :
+    TokWs cm (renderAtom (.int i)) where
+  ne := render_int_ne_nil i
+  nospace := by
+    intro c h
+    rcases mem_render_int h with h | h
+    · exact isDigit_not_space h
+    · rw [h]; exact minus_not_space
+  nocomment := by intro c hcm h; have := hc c hcm; rcases mem_render_int h with h | h <;> simp_all
+
+/-! ### the two readers on a written file, given that the line loop recovers the token lists -/
+
+theorem edgelist_core (d : Char) (cm rd : Option Char) (ty : Ty) (edges : List (List Atom))
+    (htok : (readLines (fileText ((edges.map (fun e => e.map renderAtom)).map (fun ts => [d].intercalate ts)))).filterMap
+              (lineTokens cm rd) = edges.map (fun e => e.map renderAtom))
+    (hc : ∀ e ∈ edges, ∀ a ∈ e, cast ty (renderAtom a) = .ok a) :
+    readEdgelist cm rd ty (writeEdgelist d edges) = .ok (netOfEdgeList edges) := by
+  unfold readEdgelist writeEdgelist parseEdgelistLines genEdgelist
+  have hmm : edges.map (fun e => [d].intercalate (e.map renderAtom)) =
+      (edges.map (fun e => e.map renderAtom)).map (fun ts => [d].intercalate ts) := by
+    simp [List.map_map]
+  rw [hmm, htok, mapRes_mapRes_cast_render ty edges hc]; rfl
+
+theorem bipartite_core (d : Char) (cm rd : Option Char) (nty ety : Ty) (dual : Bool) (edges : List (Atom × List Atom))
+    (htok : (readLines (fileText (((incOf edges).map (fun p => [renderAtom p.1, renderAtom p.2])).map
+              (fun ts => [d].intercalate ts)))).filterMap (lineTokens cm rd)
+            = (incOf edges).map (fun p => [renderAtom p.1, renderAtom p.2]))
+    (hc : ∀ p ∈ incOf edges, cast (if dual then ety else nty) (renderAtom p.1) = .ok p.1 ∧
+                             cast (if dual then nty else ety) (renderAtom p.2) = .ok p.2) :
+    readBipartite cm rd nty ety dual (writeBipartite d edges) =
+      .ok (netOfPairs (if dual then (incOf edges).map Prod.swap else incOf edges)) := by
+  unfold readBipartite writeBipartite parseBipartiteLines
+  rw [genBipartite_eq, htok, mapRes_bipartiteLine nty ety dual (incOf edges) hc]; rfl
 
 end Xgi.C11
